@@ -1,11 +1,12 @@
 import FFVerif.Props.C04
 import FFVerif.Pins.pinConcatenatePeriodic
+import FFVerif.Pins.C04_periodic_source_shape
 #print axioms FFVerif.C04.geom_series_solve
 #print axioms FFVerif.C04.fallback_sum
 #print axioms FFVerif.C04.periodic_eq_repetition_sum
-#print axioms FFVerif.C04.periodic_source_shape
 #print axioms FFVerif.C04.geomSum_toMatrix
 #print axioms FFVerif.C04.accumulate_replicate
 #print axioms FFVerif.C04.periodicFallback_eq
 #print axioms FFVerif.C04.periodicS_eq_geomSum
 #print axioms FFVerif.Pins.pinConcatenatePeriodic
+#print axioms FFVerif.C04.periodic_source_shape
